@@ -148,7 +148,7 @@ def gen_sum(chk):
     k = 0
     quick = chk.tier == 'quick'
     for syms in itertools.product(range(8), repeat=4):
-        for cm in ((2, 8, 1000) if quick else (1, 2, 3, 8, 24, 1000)):
+        for cm in ((2, 1000) if quick else (1, 2, 3, 8, 24, 1000)):
             k += 1
             jobs.append((list(syms), cm, 1 if k % 5 == 0 else 0, bool(k % 2)))
     # quick: 5 symbols without 0xFF (just another ordinary byte); thorough: all 8
@@ -366,14 +366,17 @@ def _run(chk, wd, proved):
                            'stream': list(s), 'capture_maxbytes': cap}, nofail=True)
     # ---- level A
     plain, plain_meta, pl, pl_meta = [], [], [], []
+    njudged = 0
     known_plog = 0
     for job, (tr, why, summ) in zip(ejobs, eres):
         chk.dist('exact:' + job[0])
         chk.dist('capmax:%s' % ('0' if job[2] == 0 else ('neg' if job[2] < 0 else ('small' if job[2] < 25 else 'large'))))
         nruns += 1
         if tr is None or (why and job[2] >= 0):
-            chk.violation({'kind': 'the implementation violates C08 on this input (judged by the reference splitter)',
-                           'why': why, 'case': _jsonable_job(job)})
+            njudged += 1
+            if njudged <= 10:
+                chk.violation({'kind': 'the implementation violates C08 on this input (judged by the reference splitter)',
+                               'why': why, 'case': _jsonable_job(job)})
             continue
         chk.dist('log:' + LOGMODES[job[5]])
         if summ[1] or summ[3] or summ[0] < sum(len(f) for f in job[1] if isinstance(f, bytes)):
@@ -386,6 +389,8 @@ def _run(chk, wd, proved):
         else:
             plain.append(exact_term(job, tr))
             plain_meta.append((job, tr))
+    if njudged > 10:
+        chk.note('%d exact runs violate C08 in all; the first 10 are kept as replays' % njudged)
     bad, errs = vlib.coq_compare(IMPORTS, 'Z * bool * list rop * list Z', 'check_exact', plain, wd, tag='exact', shard=150)
     _report(chk, bad, errs, plain_meta, plain, 'exact')
     bad, errs = vlib.coq_compare(IMPORTS, 'Z * bool * bool * list rop * list Z', 'check_exact_plog', pl, wd, tag='plog', shard=150)
